@@ -351,5 +351,8 @@ func compile(sql string) (pieces []*piece, err error) {
 	if len(pieces) == 0 {
 		return nil, myErr(1065, "Query was empty")
 	}
+	if len(pieces) == 1 {
+		pieces[0].text = sql // journal the text exactly as received
+	}
 	return pieces, nil
 }
